@@ -222,7 +222,7 @@ Section Model.
             let (s1, c) := call_or_handle K_ROLLBACK cid s in
             match c with
             | ROk => (set_txn s1 TNone [], ROk)
-            | _ => (set_txn s1 TNone (s_nested s1), c)              (* nested not cancelled *)
+            | _ => (set_txn s1 TNone [], c)        (* finally: savepoints cancelled, transaction detached *)
             end
         end
     end.
